@@ -132,7 +132,21 @@ def wfField (rec : String) (kv : String × String) : Bool :=
      (seg != "Chunker" || tok != "~") && (seg != "HashFun" || tok != "~") &&
      (seg != "PinUpdate" || tok == "c-")))
 
-def wfRt (rec : String) (kvs : KVs) : Bool := kvs.all (wfField rec)
+/-- the add parameters name sha2-256 (any case), the only hash function a CIDv0 can carry -/
+def sha256Hash (kvs : KVs) : Bool :=
+  match kvs.find? (fun kv => kv.1 == "IPFSAddParams.HashFun") with
+  | some kv => kv.2.toLower == "~sha2%2d256"
+  | none => true
+
+def cidVersion0 (kvs : KVs) : Bool :=
+  match kvs.find? (fun kv => kv.1 == "IPFSAddParams.CidVersion") with
+  | some kv => kv.2 == "0"
+  | none => false
+
+/-- well-formed: every field is, and add parameters do not ask for a CIDv0 with another hash function than
+    sha2-256 (the server refuses that combination since 6355d34) -/
+def wfRt (rec : String) (kvs : KVs) : Bool :=
+  kvs.all (wfField rec) && (rec != "AddParams" || sha256Hash kvs || !cidVersion0 kvs)
 
 /-! ## clauses -/
 
